@@ -1440,6 +1440,19 @@ static void h_c_hook(const char *cmd, cfg_t *cfg)
 
 		if (h_bad)
 			return;
+		if (h_na > 4) {	/* optional SECPATH: install through that section instance */
+			char *secpath = h_str(4);
+			cfg_t *sec = NULL;
+
+			if (h_bad)
+				return;
+			H_LIB(sec = cfg_getsec(cfg, secpath));
+			if (!sec) {
+				h_std(cmd, "rc=nosec");
+				return;
+			}
+			cfg = sec;
+		}
 		if (!strcmp(cmd, "validate"))
 			H_LIB(cfg_set_validate_func(cfg, path, h_valid_tab[k]));
 		else if (!strcmp(cmd, "validate2"))
@@ -1575,7 +1588,7 @@ static const struct h_cmd {
 	{ "setmulti", h_c_edit, 1, 3, 11 }, { "setopt", h_c_edit, 1, 4, 4 }, { "setcomment", h_c_edit, 1, 4, 4 },
 	{ "addtsec", h_c_edit, 1, 4, 4 }, { "rmsec", h_c_edit, 1, 3, 3 }, { "rmnsec", h_c_edit, 1, 4, 4 },
 	{ "rmtsec", h_c_edit, 1, 4, 4 },
-	{ "validate", h_c_hook, 1, 4, 4 }, { "validate2", h_c_hook, 1, 4, 4 }, { "printfunc", h_c_hook, 1, 4, 4 },
+	{ "validate", h_c_hook, 1, 4, 5 }, { "validate2", h_c_hook, 1, 4, 5 }, { "printfunc", h_c_hook, 1, 4, 5 },
 	{ "filter", h_c_hook, 1, 3, H_MAXTOK }, { "print", h_c_print, 1, 3, 3 }, { "printopt", h_c_print, 1, 3, 3 },
 	{ "roundtrip", h_c_roundtrip, 1, 3, 3 },
 	{ "tilde", h_c_expand, 0, 2, 2 }, { "lookup", h_c_expand, 1, 3, 3 },
